@@ -5,6 +5,8 @@
    printing, flag monotonicity) that Proofs/C01EvalProofs.v discharges for the scalar fragment. *)
 From PV Require Import Base.Bytes Base.Escape Js.Ast Tmpl.Value Tmpl.IR Tmpl.Runtime Tmpl.Exec Pug.Ast Pug.Compile
   Pug.Lower Spec.Sem Proofs.ExecMono Proofs.C01Proofs Proofs.C02Proofs Proofs.C03Proofs.
+Lemma cap_is_limit : while_cap = while_limit.
+Proof. reflexivity. Qed.
 Local Strategy opaque [eval_cmd truthy while_cap while_limit sem_expr].
 
 (* ---- output -------------------------------------------------------------------------------------------- *)
@@ -251,11 +253,12 @@ Section Sim.
   Hypothesis H_mono : forall e, goodb e = true ->
     forall g j g', sem_expr efuel g e = SOk (j, g') -> exists l, s_flags g' = l ++ s_flags g.
   Hypothesis H_noerr : forall e, goodb e = true -> forall g fl, sem_expr efuel g e <> SErr fl.
-  Hypothesis H_print : forall e esc, goodb e = true -> printable e = true ->
+  Hypothesis H_id : forall x, goodb (JId x) = true -> In x names.
+  Hypothesis H_print : forall e, goodb e = true -> printable e = true ->
     forall defs f dot s g g1 j t g2, R s g ->
       sem_expr efuel g e = SOk (j, g1) -> print_string g1 j = SOk (t, g2) -> s_flags g2 = s_flags g ->
       exists a, lx e = Some a /\
-                exec_node defs (S f) dot s (NAction ([], [a] :: esc_cmds (negb esc))) = Ok (emit s (if esc then escape t else t)) /\
+                exec_node defs (S f) dot s (NAction ([], [a] :: esc_cmds false)) = Ok (emit s (escape t)) /\
                 s_env g2 = s_env g /\ s_out g2 = s_out g.
 
   Let lw := lower funcs goodb.
@@ -264,11 +267,11 @@ Section Sim.
   Inductive code_shape (stmts : list jstmt) (esc : bool) (t : list tnode) : Prop :=
   | CS_assign x r a : stmts = [SExpr (JAssign None (JId x) r)] -> esc = false -> lx r = Some a ->
                       t = [NAction ([x], [[a]])] -> code_shape stmts esc t
-  | CS_inc x post : stmts = [SExpr (JUn UInc post (JId x))] -> esc = false ->
+  | CS_inc x post : stmts = [SExpr (JUn UInc post (JId x))] -> esc = false -> goodb (JId x) = true ->
                     t = [NAction ([x], [[AIdent (B "__op__inc"); AVar x []]])] -> code_shape stmts esc t
   | CS_var x i a : stmts = [SVar [JVar x (Some i)]] -> esc = false -> lx i = Some a ->
                    t = [NAction ([x], [[a]])] -> code_shape stmts esc t
-  | CS_print e a : stmts = [SExpr e] -> printable e = true -> lx e = Some a ->
+  | CS_print e a : stmts = [SExpr e] -> printable e = true -> esc = true -> lx e = Some a ->
                    t = [NAction ([], [a] :: esc_cmds (negb esc))] -> code_shape stmts esc t.
 
   Lemma lower_code_inv fl stmts esc inl t :
@@ -280,18 +283,21 @@ Section Sim.
     - (* an expression statement *)
       destruct (printable e) eqn:Hp.
       + (* the generic buffered form *)
-        assert (G : (if printable e then match lx e with Some a => Some [NAction ([], [a] :: esc_cmds (negb esc))] | None => None end
+        assert (G : (if printable e && esc then match lx e with Some a => Some [NAction ([], [a] :: esc_cmds (negb esc))] | None => None end
                      else None) = Some t).
         { destruct e; try discriminate Hp; exact H. }
-        rewrite Hp in G. destruct (lx e) as [a|] eqn:L; [|discriminate G]. injection G as <-.
-        eapply CS_print; [reflexivity|exact Hp|exact L|reflexivity].
+        rewrite Hp in G. destruct esc; [|discriminate G]. cbn [andb] in G.
+        destruct (lx e) as [a|] eqn:L; [|discriminate G]. injection G as <-.
+        eapply CS_print; [reflexivity|exact Hp|reflexivity|exact L|reflexivity].
       + destruct e; try discriminate Hp; try (destruct esc; discriminate H).
         * (* unary: only ++ on an identifier *)
           destruct op; try (destruct esc; discriminate H).
           destruct e; try (destruct esc; discriminate H).
           destruct esc; [discriminate H|].
-          destruct (negb (is_ident x) || known funcs x); [discriminate H|]. injection H as <-.
-          eapply CS_inc; reflexivity.
+          destruct (goodb (JId x)) eqn:Gx;
+            [|destruct (negb (is_ident x) || known funcs x); discriminate H].
+          destruct (negb (is_ident x) || known funcs x); [discriminate H|]. cbn [negb orb] in H. injection H as <-.
+          eapply CS_inc; [reflexivity|reflexivity|exact Gx|reflexivity].
         * (* assignment: only a plain one to an identifier *)
           destruct op; try (destruct esc; discriminate H).
           destruct e1; try (destruct esc; discriminate H).
@@ -393,14 +399,14 @@ Section Sim.
     code_shape stmts esc t -> grows g (sem_node globals (S f0) m blk g (PCode stmts esc inl)).
   Proof.
     intros Hs. destruct f0 as [|f]; [destruct Hs; subst; exact I|]. revert Hs.
-    intros [x r a -> -> La _|x post -> -> _|x i a -> -> La _|e a -> Hp La _].
+    intros [x r a -> -> La _|x post -> -> _ _|x i a -> -> La _|e a -> Hp -> La _].
     - rewrite sem_code_assign. pose proof (expr_grows g r a La) as Hg.
       destruct (sem_expr efuel g r) as [[v g1]|fl0| |]; cbn [sbind]; try exact I; try contradiction. exact Hg.
     - rewrite sem_code_inc. destruct (env_get (s_env g) x); cbn [sbind]; try exact I.
       unfold num. destruct (in_range (z + 1)); cbn [sbind]; [exists []; reflexivity|exact I].
     - rewrite sem_code_var. pose proof (expr_grows g i a La) as Hg.
       destruct (sem_expr efuel g i) as [[v g1]|fl0| |]; cbn [sbind]; try exact I; try contradiction. exact Hg.
-    - rewrite (sem_code_print f m blk g e esc inl Hp). pose proof (expr_grows g e a La) as Hg.
+    - rewrite (sem_code_print f m blk g e true inl Hp). pose proof (expr_grows g e a La) as Hg.
       destruct (sem_expr efuel g e) as [[v g1]|fl0| |]; cbn [sbind]; try exact I; try contradiction.
       destruct (print_string g1 v) as [[tx g2]|fl1| |] eqn:Ep; cbn [sbind]; try exact I;
         try (exfalso; exact (print_string_noerr g1 v fl1 Ep)).
@@ -450,5 +456,470 @@ Section Sim.
         rewrite sem_while_eq. exact (while_grows fs blk test body ta fl tb IHns Lt Ebd fs while_limit g m).
       + rewrite sem_block. unfold lw in Hl. cbn [lower] in Hl. exact (IHns l m blk g fl t Hl).
       + rewrite sem_comment. apply grows_refl.
+  Qed.
+
+  (* ---- the simulation -------------------------------------------------------------------------------------- *)
+  (* [M f]: an execution of the model with fuel f; [r]: what S says *)
+  Definition sim_res (M : nat -> res xstate) (g : sstate) (m : list (bytes * mixin))
+             (r : sres (sstate * list (bytes * mixin))) : Prop :=
+    match r with
+    | SOk (g', m') => s_flags g' = s_flags g -> m' = m /\ exists f s', M f = Ok s' /\ R s' g'
+    | SErr fl => fl = s_flags g -> exists f, M f = Panic
+    | _ => True
+    end.
+  Definition sim_ok (dot : val) (s : xstate) (t : list tnode) := sim_res (fun f => exec_nodes [] f dot s t).
+
+  Lemma sim_seq dot s t1 t2 g m r1 k :
+    grows g r1 -> sim_ok dot s t1 g m r1 ->
+    (forall g1 m1, r1 = SOk (g1, m1) -> grows g1 (k (g1, m1))) ->
+    (forall g1 s1, R s1 g1 -> sim_ok dot s1 t2 g1 m (k (g1, m))) ->
+    sim_ok dot s (t1 ++ t2) g m (sbind r1 k).
+  Proof.
+    intros G1 S1 G2 S2. destruct r1 as [[g1 m1]|fl| |]; cbn [sbind]; try exact I.
+    - specialize (G2 g1 m1 eq_refl). destruct G1 as [l1 E1].
+      destruct (k (g1, m1)) as [[g' m']|fl| |] eqn:Ek; try exact I.
+      + intros Hf. destruct G2 as [l2 E2]. rewrite E2, E1 in Hf. destruct (flags_split _ _ _ Hf) as [-> ->].
+        cbn [app] in E1, E2. destruct (S1 E1) as [-> [f1 [s1 [X1 R1]]]].
+        specialize (S2 g1 s1 R1). unfold sim_ok, sim_res in S2. rewrite Ek in S2.
+        destruct (S2 E2) as [-> [f2 [s' [X2 R2]]]]. split; [reflexivity|].
+        exists (f1 + f2), s'. split; [|exact R2].
+        apply (exec_app_ok [] dot t1 f1 s s1 f2 t2 (Ok s') X1 X2). apply fin_ok.
+      + intros Hf. destruct G2 as [l2 E2]. rewrite E2, E1 in Hf. destruct (flags_split _ _ _ Hf) as [-> ->].
+        cbn [app] in E1, E2. destruct (S1 E1) as [-> [f1 [s1 [X1 R1]]]].
+        specialize (S2 g1 s1 R1). unfold sim_ok, sim_res in S2. rewrite Ek in S2.
+        destruct (S2 E2) as [f2 X2].
+        exists (f1 + f2). apply (exec_app_ok [] dot t1 f1 s s1 f2 t2 Panic X1 X2). apply fin_panic.
+    - intros Hf. destruct (S1 Hf) as [f1 X1]. exists (f1 + 0). apply exec_app_panic. exact X1.
+  Qed.
+
+  Lemma sim_single dot s n g m r :
+    sim_res (fun f => exec_node [] f dot s n) g m r -> sim_ok dot s [n] g m r.
+  Proof.
+    unfold sim_ok, sim_res. destruct r as [[g' m']|fl| |]; try exact (fun _ => I).
+    - intros H Hf. destruct (H Hf) as [-> [f [s' [X Rr]]]]. split; [reflexivity|].
+      exists (S (S f)), s'. split; [|exact Rr]. apply exec_single; [exact X|apply fin_ok].
+    - intros H Hf. destruct (H Hf) as [f X]. exists (S (S f)). apply exec_single; [exact X|apply fin_panic].
+  Qed.
+
+  Lemma eval_here dot s g e a j g1 :
+    R s g -> lx e = Some a -> sem_expr efuel g e = SOk (j, g1) -> s_flags g1 = s_flags g ->
+    exists v, (forall d, eval_pipeline (env_of s dot) (x_heap s) (d, [[a]]) = Ok (v, x_heap s)) /\ vr v j /\ okj j /\ R s g1.
+  Proof.
+    intros Rr La Es Ef.
+    destruct (H_eval e (good_lx e a La) (env_of s dot) (x_heap s) g j g1 (R_env s g Rr) (R_rng s g Rr) Es Ef)
+      as [a' [v [La' [Ev [Hv [Hj [E1 E2]]]]]]].
+    rewrite La in La'. injection La' as <-.
+    exists v. split; [exact Ev|split; [exact Hv|split; [exact Hj|exact (R_env_out s g g1 Rr E1 E2)]]].
+  Qed.
+
+  Lemma R_set_heap_same s g : R s g -> R (set_heap s (x_heap s)) g.
+  Proof. rewrite set_heap_same. exact (fun H => H). Qed.
+
+  Lemma code_sim f0 m blk g stmts esc inl t dot s :
+    code_shape stmts esc t -> R s g ->
+    sim_ok dot s t g m (sem_node globals (S f0) m blk g (PCode stmts esc inl)).
+  Proof.
+    intros Hs Rr. destruct f0 as [|f]; [destruct Hs; subst; exact I|]. revert Hs.
+    intros [x r a -> -> La ->|x post -> -> Gx ->|x i a -> -> La ->|e a -> Hp -> La ->]; apply sim_single.
+    - (* x = r *)
+      rewrite sem_code_assign. pose proof (expr_grows g r a La) as Hg.
+      destruct (sem_expr efuel g r) as [[j g1]|fl0| |] eqn:Es; cbn [sbind sim_res]; try exact I; try contradiction.
+      cbn [with_env s_flags]. intros Hf.
+      destruct (eval_here dot s g r a j g1 Rr La Es Hf) as [v [Ev [Hv [Hj R1]]]].
+      split; [reflexivity|]. exists 1. eexists. split; [exact (decl_action [] 0 dot s x a v (Ev [x]))|].
+      exact (R_assign s g1 x v j (x_heap s) R1 Hv Hj).
+    - (* x++ *)
+      rewrite sem_code_inc. destruct (env_get (s_env g) x) as [| | |z| | |] eqn:Ex; cbn [sbind sim_res]; try exact I.
+      unfold num. destruct (in_range (z + 1)) eqn:Hz; cbn [sbind sim_res]; [|exact I].
+      cbn [with_env s_flags]. intros _. split; [reflexivity|].
+      pose proof (R_env s g Rr x (H_id x Gx)) as Hx. rewrite Ex in Hx.
+      exists 1. eexists. split.
+      + cbn [exec_node]. rewrite (inc_eval (env_of s dot) (x_heap s) x z _ eq_refl (vr_num _ z Hx) Hz). reflexivity.
+      + exact (R_assign s g x (VNum (z + 1)) (JN (z + 1)) (x_heap s) Rr (vr_num_intro _) (okj_num _ Hz)).
+    - (* var x = i *)
+      rewrite sem_code_var. pose proof (expr_grows g i a La) as Hg.
+      destruct (sem_expr efuel g i) as [[j g1]|fl0| |] eqn:Es; cbn [sbind sim_res]; try exact I; try contradiction.
+      cbn [with_env s_flags]. intros Hf.
+      destruct (eval_here dot s g i a j g1 Rr La Es Hf) as [v [Ev [Hv [Hj R1]]]].
+      split; [reflexivity|]. exists 1. eexists. split; [exact (decl_action [] 0 dot s x a v (Ev [x]))|].
+      exact (R_assign s g1 x v j (x_heap s) R1 Hv Hj).
+    - (* = e / != e *)
+      rewrite (sem_code_print f m blk g e true inl Hp). pose proof (expr_grows g e a La) as Hg.
+      destruct (sem_expr efuel g e) as [[j g1]|fl0| |] eqn:Es; cbn [sbind sim_res]; try exact I; try contradiction.
+      destruct (print_string g1 j) as [[tx g2]|fl1| |] eqn:Ep; cbn [sbind sim_res]; try exact I.
+      + cbn [put s_flags]. intros Hf.
+        destruct (H_print e (good_lx e a La) Hp [] 0 dot s g g1 j tx g2 Rr Es Ep Hf) as [a' [La' [X [E1 E2]]]].
+        rewrite La in La'. injection La' as <-.
+        split; [reflexivity|]. exists 1. eexists. split; [exact X|].
+        apply R_emit_put. exact (R_env_out s g g2 Rr E1 E2).
+      + exfalso. exact (print_string_noerr g1 j fl1 Ep).
+  Qed.
+
+  (* ---- while -------------------------------------------------------------------------------------------------- *)
+  Definition after_true (f : nat) (blk : option closure) (test : jexpr) (body : list pnode)
+             (b f2 : nat) (g1 : sstate) (m : list (bytes * mixin)) : sres (sstate * list (bytes * mixin)) :=
+    match b with
+    | O =>
+      sdo r <- sem_nodes globals f m blk g1 body; let '(s2, _) := r in
+      sdo t <- sem_expr efuel s2 test; SErr (s_flags (snd t))
+    | S b' =>
+      sdo r <- sem_nodes globals f m blk g1 body; let '(s2, m2) := r in sem_while f blk test body b' f2 s2 m2
+    end.
+
+  Lemma sem_while_step f blk test body b f2 g m :
+    sem_while f blk test body b (S f2) g m =
+    (sdo a <- sem_expr efuel g test; let '(v, g1) := a in
+     match v with
+     | JB false => SOk (g1, m)
+     | JB true => after_true f blk test body b f2 g1 m
+     | _ => SOff
+     end).
+  Proof. cbn [sem_while]. destruct (sem_expr efuel g test) as [[v g1]| | |]; [|reflexivity..].
+         cbn [sbind]. destruct v as [| |[|]| | | |]; try reflexivity. all: try (destruct b; reflexivity). Qed.
+
+  (* the state in which walkRange continues after evaluating a test without declarations *)
+  Definition plan_state (s : xstate) (v : val) : xstate :=
+    let s0 := set_vars s (f_vars (cur s) ++ map (fun x : bytes => (x, VInvalid)) []) in
+    set_vars (set_heap s0 (x_heap s0)) (set_decl (f_vars (cur (set_heap s0 (x_heap s0)))) [] v).
+
+  Lemma R_plan_state s g v : R s g -> R (plan_state s v) g.
+  Proof.
+    intros [Hl He Hk Ho]. unfold plan_state. cbn [map set_decl fold_left]. split.
+    - apply set_vars_live.
+    - rewrite cur_set_vars. unfold set_heap at 1. unfold cur at 1. cbn [x_frames]. fold (cur (set_vars s (f_vars (cur s) ++ []))).
+      rewrite cur_set_vars, app_nil_r. exact He.
+    - exact Hk.
+    - exact Ho.
+  Qed.
+
+  Lemma range_plan_test dot s g test ta j g1 :
+    R s g -> lx test = Some ta -> sem_expr efuel g test = SOk (j, g1) -> s_flags g1 = s_flags g ->
+    exists v, vr v j /\ R (plan_state s v) g1 /\
+      range_plan dot s (pipe1 ta) =
+      match v with
+      | VArr _ | VMap _ | VNil | VInvalid | VAttrs _ | VMod _ => range_plan dot s (pipe1 ta)
+      | VBool b | VGoBool b => Ok (if b then RWhile (plan_state s v) v else RDone (plan_state s v))
+      | _ => Panic
+      end.
+  Proof.
+    intros Rr La Es Ef.
+    set (s0 := set_vars s (f_vars (cur s) ++ map (fun x : bytes => (x, VInvalid)) [])).
+    assert (R0 : R s0 g).
+    { destruct Rr as [Hl He Hk Ho]. split; [apply set_vars_live| |exact Hk|exact Ho].
+      unfold s0. rewrite cur_set_vars. cbn [map]. rewrite app_nil_r. exact He. }
+    destruct (eval_here dot s0 g test ta j g1 R0 La Es Ef) as [v [Ev [Hv [Hj R1]]]].
+    exists v. split; [exact Hv|]. split.
+    - apply (R_env_out (plan_state s v) g g1); [apply R_plan_state; exact Rr| |].
+      + destruct R1 as [_ _ _ _]. 
+        (* the expression left S's environment and output alone *)
+        destruct (H_eval test (good_lx test ta La) (env_of s0 dot) (x_heap s0) g j g1 (R_env s0 g R0) (R_rng s0 g R0) Es Ef)
+          as [_ [_ [_ [_ [_ [_ [E1 _]]]]]]]. exact E1.
+      + destruct (H_eval test (good_lx test ta La) (env_of s0 dot) (x_heap s0) g j g1 (R_env s0 g R0) (R_rng s0 g R0) Es Ef)
+          as [_ [_ [_ [_ [_ [_ [_ E2]]]]]]]. exact E2.
+    - unfold range_plan, pipe1. fold s0. rewrite (Ev []). cbn [bind].
+      destruct v; reflexivity.
+  Qed.
+
+  Definition P_nodes (fs : nat) : Prop := forall ns m blk g fl t dot s,
+    lower_list (lw fl) ns = Some t -> R s g -> sim_ok dot s t g m (sem_nodes globals fs m blk g ns).
+  Definition P_node (fs : nat) : Prop := forall n m blk g fl t dot s,
+    lw fl n = Some t -> R s g -> sim_ok dot s t g m (sem_node globals fs m blk g n).
+
+  Definition is_true (v : val) : Prop := v = VBool true \/ v = VGoBool true.
+
+  (* one more test in the executor's while loop, with the test's value related to S's *)
+  Lemma while_test_eval dot s2 g2 test ta j g3 :
+    R s2 g2 -> lx test = Some ta -> sem_expr efuel g2 test = SOk (j, g3) -> s_flags g3 = s_flags g2 ->
+    exists v', eval_pipeline (env_of s2 dot) (x_heap s2) (pipe1 ta) = Ok (v', x_heap s2) /\ vr v' j /\ R s2 g3.
+  Proof.
+    intros R2 La Es Ef. destruct (eval_here dot s2 g2 test ta j g3 R2 La Es Ef) as [v' [Ev [Hv [_ R3]]]].
+    exists v'. split; [exact (Ev [])|split; assumption].
+  Qed.
+
+  Lemma after_true_grows f blk test body ta tb fl :
+    G_nodes f -> lx test = Some ta -> lower_list (lw fl) body = Some tb ->
+    forall b f2 g1 m, grows g1 (after_true f blk test body b f2 g1 m).
+  Proof.
+    intros IHG La Lb b f2 g1 m. unfold after_true. destruct b as [|b'].
+    - apply grows_bind; [exact (IHG body m blk g1 fl tb Lb)|]. intros g5 m5 _.
+      pose proof (expr_grows g5 test ta La) as G5.
+      destruct (sem_expr efuel g5 test) as [[j6 g6]|?| |]; cbn [sbind snd]; try exact I; try contradiction. exact G5.
+    - apply grows_bind; [exact (IHG body m blk g1 fl tb Lb)|]. intros g5 m5 _.
+      exact (while_grows f blk test body ta fl tb IHG La Lb f2 b' g5 m5).
+  Qed.
+
+  Lemma while_sim f blk test body ta tb fl :
+    P_nodes f -> G_nodes f -> lx test = Some ta -> lower_list (lw fl) body = Some tb ->
+    forall f2 b g1 m s1 v dot, R s1 g1 -> is_true v ->
+      sim_res (fun fM => exec_while [] fM dot s1 (pipe1 ta) tb b v) g1 m (after_true f blk test body b f2 g1 m).
+  Proof.
+    intros IHP IHG La Lb. induction f2 as [|f2 IH2]; intros b g1 m s1 v dot R1 Hv.
+    - (* no S fuel left for another test *)
+      unfold after_true. pose proof (IHG body m blk g1 fl tb Lb) as Gb.
+      pose proof (IHP body m blk g1 fl tb v s1 Lb R1) as Sb. unfold sim_ok in Sb.
+      destruct (sem_nodes globals f m blk g1 body) as [[g2 m2]|flb| |] eqn:Eb; destruct b as [|b']; cbn [sbind sim_res]; try exact I.
+      + (* budget used up: body, test, error *)
+        pose proof (expr_grows g2 test ta La) as Gt.
+        destruct (sem_expr efuel g2 test) as [[j g3]|fl0| |] eqn:Et; cbn [sbind sim_res snd]; try exact I; try contradiction.
+        intros Hf. destruct Gb as [l1 E1]. destruct Gt as [l2 E2]. rewrite E2, E1 in Hf.
+        destruct (flags_split _ _ _ Hf) as [-> ->]. cbn [app] in E1, E2.
+        destruct (Sb E1) as [_ [fb [s2 [Xb R2]]]].
+        destruct (while_test_eval dot s2 g2 test ta j g3 R2 La Et E2) as [v' [Ev _]].
+        exists (S fb). rewrite while_step, Xb. cbn [bind]. rewrite Ev. reflexivity.
+      + intros Hf. destruct (Sb Hf) as [fb Xb]. exists (S fb). rewrite while_step, Xb. reflexivity.
+      + intros Hf. destruct (Sb Hf) as [fb Xb]. exists (S fb). rewrite while_step, Xb. reflexivity.
+    - unfold after_true. pose proof (IHG body m blk g1 fl tb Lb) as Gb.
+      pose proof (IHP body m blk g1 fl tb v s1 Lb R1) as Sb. unfold sim_ok in Sb.
+      destruct (sem_nodes globals f m blk g1 body) as [[g2 m2]|flb| |] eqn:Eb; destruct b as [|b']; cbn [sbind sim_res]; try exact I.
+      + pose proof (expr_grows g2 test ta La) as Gt.
+        destruct (sem_expr efuel g2 test) as [[j g3]|fl0| |] eqn:Et; cbn [sbind sim_res snd]; try exact I; try contradiction.
+        intros Hf. destruct Gb as [l1 E1]. destruct Gt as [l2 E2]. rewrite E2, E1 in Hf.
+        destruct (flags_split _ _ _ Hf) as [-> ->]. cbn [app] in E1, E2.
+        destruct (Sb E1) as [_ [fb [s2 [Xb R2]]]].
+        destruct (while_test_eval dot s2 g2 test ta j g3 R2 La Et E2) as [v' [Ev _]].
+        exists (S fb). rewrite while_step, Xb. cbn [bind]. rewrite Ev. reflexivity.
+      + (* another round *)
+        rewrite sem_while_step. pose proof (expr_grows g2 test ta La) as Gt.
+        destruct (sem_expr efuel g2 test) as [[j g3]|fl0| |] eqn:Et; cbn [sbind]; try exact I; try contradiction.
+        destruct Gb as [l1 E1]. destruct Gt as [l2 E2].
+        destruct j as [| |[|]| | | |]; try exact I.
+        * (* test true again *)
+          pose proof (while_grows f blk test body ta fl tb IHG La Lb) as GW.
+          assert (GA : grows g3 (after_true f blk test body b' f2 g3 m2)).
+          { specialize (GW (S f2) b' g3 m2). rewrite sem_while_step in GW.
+            destruct (sem_expr efuel g3 test) as [[j4 g4]|?| |] eqn:E4; unfold after_true. 
+            - (* use monotonicity of the loop from g3 directly *)
+              unfold after_true in *. clear GW.
+              destruct b' as [|b''].
+              + apply grows_bind; [exact (IHG body m2 blk g3 fl tb Lb)|]. intros g5 m5 _.
+                pose proof (expr_grows g5 test ta La) as G5.
+                destruct (sem_expr efuel g5 test) as [[j6 g6]|?| |]; cbn [sbind snd]; try exact I; try contradiction. exact G5.
+              + apply grows_bind; [exact (IHG body m2 blk g3 fl tb Lb)|]. intros g5 m5 _.
+                exact (while_grows f blk test body ta fl tb IHG La Lb f2 b'' g5 m5).
+            - destruct b' as [|b''].
+              + apply grows_bind; [exact (IHG body m2 blk g3 fl tb Lb)|]. intros g5 m5 _.
+                pose proof (expr_grows g5 test ta La) as G5.
+                destruct (sem_expr efuel g5 test) as [[j6 g6]|?| |]; cbn [sbind snd]; try exact I; try contradiction. exact G5.
+              + apply grows_bind; [exact (IHG body m2 blk g3 fl tb Lb)|]. intros g5 m5 _.
+                exact (while_grows f blk test body ta fl tb IHG La Lb f2 b'' g5 m5).
+            - destruct b' as [|b''].
+              + apply grows_bind; [exact (IHG body m2 blk g3 fl tb Lb)|]. intros g5 m5 _.
+                pose proof (expr_grows g5 test ta La) as G5.
+                destruct (sem_expr efuel g5 test) as [[j6 g6]|?| |]; cbn [sbind snd]; try exact I; try contradiction. exact G5.
+              + apply grows_bind; [exact (IHG body m2 blk g3 fl tb Lb)|]. intros g5 m5 _.
+                exact (while_grows f blk test body ta fl tb IHG La Lb f2 b'' g5 m5).
+            - destruct b' as [|b''].
+              + apply grows_bind; [exact (IHG body m2 blk g3 fl tb Lb)|]. intros g5 m5 _.
+                pose proof (expr_grows g5 test ta La) as G5.
+                destruct (sem_expr efuel g5 test) as [[j6 g6]|?| |]; cbn [sbind snd]; try exact I; try contradiction. exact G5.
+              + apply grows_bind; [exact (IHG body m2 blk g3 fl tb Lb)|]. intros g5 m5 _.
+                exact (while_grows f blk test body ta fl tb IHG La Lb f2 b'' g5 m5). }
+          destruct (after_true f blk test body b' f2 g3 m2) as [[g' m']|fle| |] eqn:EA; cbn [sim_res]; try exact I.
+          -- intros Hf. destruct GA as [l3 E3]. rewrite E3, E2, E1 in Hf.
+             assert (HH : l3 = [] /\ l2 = [] /\ l1 = []).
+             { rewrite !app_assoc in Hf. change (s_flags g1) with ([] ++ s_flags g1) in Hf at 2.
+               apply app_inv_tail in Hf. apply app_eq_nil in Hf. destruct Hf as [Hf ->].
+               apply app_eq_nil in Hf. destruct Hf as [-> ->]. repeat split. }
+             destruct HH as [-> [-> ->]]. cbn [app] in E1, E2, E3.
+             destruct (Sb E1) as [-> [fb [s2 [Xb R2]]]].
+             destruct (while_test_eval dot s2 g2 test ta (JB true) g3 R2 La Et E2) as [v' [Ev [Hv' R3]]].
+             pose proof (IH2 b' g3 m s2 v' dot R3) as SI. 
+             assert (Tv : is_true v') by (destruct (vr_bool v' true Hv') as [->| ->]; [left|right]; reflexivity).
+             specialize (SI Tv). rewrite EA in SI. cbn [sim_res] in SI. destruct (SI E3) as [-> [fw [s' [Xw R']]]].
+             split; [reflexivity|]. exists (S (fb + fw)), s'. split; [|exact R'].
+             rewrite while_step.
+             rewrite (exec_nodes_mono [] fb (fb + fw)); [|lia|rewrite Xb; apply fin_ok]. rewrite Xb. cbn [bind].
+             rewrite Ev. cbn [bind]. rewrite set_heap_same.
+             rewrite (exec_while_mono [] fw (fb + fw)); [|lia|rewrite Xw; apply fin_ok].
+             destruct Tv as [-> | ->]; exact Xw.
+          -- intros Hf. destruct GA as [l3 E3]. rewrite E3, E2, E1 in Hf.
+             assert (HH : l3 = [] /\ l2 = [] /\ l1 = []).
+             { rewrite !app_assoc in Hf. change (s_flags g1) with ([] ++ s_flags g1) in Hf at 2.
+               apply app_inv_tail in Hf. apply app_eq_nil in Hf. destruct Hf as [Hf ->].
+               apply app_eq_nil in Hf. destruct Hf as [-> ->]. repeat split. }
+             destruct HH as [-> [-> ->]]. cbn [app] in E1, E2, E3.
+             destruct (Sb E1) as [-> [fb [s2 [Xb R2]]]].
+             destruct (while_test_eval dot s2 g2 test ta (JB true) g3 R2 La Et E2) as [v' [Ev [Hv' R3]]].
+             pose proof (IH2 b' g3 m s2 v' dot R3) as SI.
+             assert (Tv : is_true v') by (destruct (vr_bool v' true Hv') as [->| ->]; [left|right]; reflexivity).
+             specialize (SI Tv). rewrite EA in SI. cbn [sim_res] in SI. destruct (SI E3) as [fw Xw].
+             exists (S (fb + fw)).
+             rewrite while_step.
+             rewrite (exec_nodes_mono [] fb (fb + fw)); [|lia|rewrite Xb; apply fin_ok]. rewrite Xb. cbn [bind].
+             rewrite Ev. cbn [bind]. rewrite set_heap_same.
+             rewrite (exec_while_mono [] fw (fb + fw)); [|lia|rewrite Xw; apply fin_panic].
+             destruct Tv as [-> | ->]; exact Xw.
+        * (* test false: the loop ends *)
+          cbn [sim_res]. intros Hf. rewrite E2, E1 in Hf. destruct (flags_split _ _ _ Hf) as [-> ->]. cbn [app] in E1, E2.
+          destruct (Sb E1) as [-> [fb [s2 [Xb R2]]]].
+          destruct (while_test_eval dot s2 g2 test ta (JB false) g3 R2 La Et E2) as [v' [Ev [Hv' R3]]].
+          split; [reflexivity|]. exists (S fb), (set_heap s2 (x_heap s2)). split.
+          -- rewrite while_step, Xb. cbn [bind]. rewrite Ev. cbn [bind].
+             destruct (vr_bool v' false Hv') as [-> | ->]; reflexivity.
+          -- rewrite set_heap_same. exact R3.
+      + intros Hf. destruct (Sb Hf) as [fb Xb]. exists (S fb). rewrite while_step, Xb. reflexivity.
+      + intros Hf. destruct (Sb Hf) as [fb Xb]. exists (S fb). rewrite while_step, Xb. reflexivity.
+  Qed.
+
+  Hypothesis void_agree : forall name, is_void name = mem name void_tags.
+
+  Lemma sim_all fs : P_nodes fs /\ P_node fs.
+  Proof.
+    induction fs as [|fs [IHns IHn]]; [split; intro; intros; exact I|].
+    pose proof (proj1 (grows_all fs)) as Gns. pose proof (proj2 (grows_all fs)) as Gn. split.
+    - (* node lists *)
+      intros ns m blk g fl t dot s Hl Rr. destruct ns as [|n r].
+      + cbn [lower_list] in Hl. injection Hl as <-. rewrite sem_nodes_nil. cbn [sim_ok sim_res]. intros _.
+        split; [reflexivity|]. exists 1, s. split; [reflexivity|exact Rr].
+      + rewrite sem_nodes_cons. destruct (lower_list_cons _ _ _ _ Hl) as [ta [tb [Ha [Hb ->]]]].
+        apply sim_seq.
+        * exact (Gn n m blk g fl ta Ha).
+        * exact (IHn n m blk g fl ta dot s Ha Rr).
+        * intros g1 m1 _. exact (Gns r m1 blk g1 fl tb Hb).
+        * intros g1 s1 R1. exact (IHns r m blk g1 fl tb dot s1 Hb R1).
+    - (* single nodes *)
+      intros n m blk g fl t dot s Hl Rr. destruct fl as [|fl]; [discriminate|].
+      destruct n as [name inl attrs ablocks body|txt|stmts esc inl|test cons_ alt|e whens|v k obj body|test body
+                     |name params body|name args attrs body| |v|l|]; try discriminate Hl.
+      + (* tag *)
+        unfold lw in Hl. cbn [lower] in Hl.
+        destruct attrs; [|discriminate]. destruct ablocks; [|discriminate].
+        destruct (has_delim name); [discriminate|].
+        destruct (lower_list (lower funcs goodb fl) body) as [b|] eqn:Eb; [|discriminate].
+        rewrite sem_tag. cbv zeta. rewrite void_agree in Hl.
+        replace (B "<" ++ name ++ [] ++ B ">") with ((B "<" ++ name) ++ B ">") by (cbn [app]; rewrite <- !app_assoc; reflexivity).
+        assert (R2 : R (emit (emit s (B "<" ++ name)) (B ">")) (put g ((B "<" ++ name) ++ B ">"))).
+        { pose proof (R_emit_put _ _ (B ">") (R_emit_put s g (B "<" ++ name) Rr)) as H.
+          destruct H as [Hl' He' Hk' Ho']. split; [exact Hl'|exact He'|exact Hk'|].
+          rewrite Ho', !soutput_put. rewrite <- !app_assoc. reflexivity. }
+        destruct (mem name void_tags).
+        * injection Hl as <-. cbn [sim_ok sim_res put s_flags]. intros _. split; [reflexivity|].
+          exists 3. eexists. split; [reflexivity|exact R2].
+        * destruct (beqb name (B "script")); [discriminate|]. injection Hl as <-.
+          set (g0 := put g ((B "<" ++ name) ++ B ">")).
+          assert (S0 : sim_ok dot s [NText (B "<" ++ name); NText (B ">")] g m (SOk (g0, m))).
+          { cbn [sim_ok sim_res]. intros _. split; [reflexivity|]. exists 3. eexists. split; [reflexivity|exact R2]. }
+          set (k := fun a : sstate * list (bytes * mixin) => let '(g1, m1) := a in
+                    sdo b0 <- sem_nodes globals fs m1 blk g1 body; let '(s3, m3) := b0 in SOk (put s3 (B "</" ++ name ++ B ">"), m3)).
+          refine (sim_seq dot s [NText (B "<" ++ name); NText (B ">")] (b ++ [NText (B "</" ++ name ++ B ">")]) g m
+                          (SOk (g0, m)) k _ S0 _ _).
+          -- exists []. reflexivity.
+          -- intros g1 m1 E1. injection E1 as <- <-. unfold k. apply grows_bind; [exact (Gns body m blk g0 fl b Eb)|].
+             intros g3 m3 _. exists []. reflexivity.
+          -- intros g1 s1 R1. unfold k.
+             set (k2 := fun a : sstate * list (bytes * mixin) => let '(s3, m3) := a in
+                        SOk (put s3 (B "</" ++ name ++ B ">"), m3) : sres (sstate * list (bytes * mixin))).
+             refine (sim_seq dot s1 b [NText (B "</" ++ name ++ B ">")] g1 m (sem_nodes globals fs m blk g1 body) k2 _ _ _ _).
+             ++ exact (Gns body m blk g1 fl b Eb).
+             ++ exact (IHns body m blk g1 fl b dot s1 Eb R1).
+             ++ intros g3 m3 _. exists []. reflexivity.
+             ++ intros g3 s3 R3. cbn [sim_ok sim_res put s_flags k2]. intros _. split; [reflexivity|].
+                exists 2. eexists. split; [reflexivity|]. exact (R_emit_put s3 g3 _ R3).
+      + (* text *)
+        unfold lw in Hl. cbn [lower] in Hl. destruct (plain_text txt); [|discriminate]. injection Hl as <-.
+        rewrite sem_text. cbn [sim_ok sim_res put s_flags]. intros _. split; [reflexivity|].
+        exists 2. eexists. split; [reflexivity|]. exact (R_emit_put s g txt Rr).
+      + (* code *)
+        exact (code_sim fs m blk g stmts esc inl t dot s (lower_code_inv fl stmts esc inl t Hl) Rr).
+      + (* if *)
+        unfold lw in Hl. cbn [lower] in Hl. fold lx in Hl.
+        destruct (lx test) as [ta|] eqn:Lt; [|discriminate].
+        destruct (lower_list (lower funcs goodb fl) cons_) as [th|] eqn:Ec; [|discriminate].
+        rewrite sem_cond. pose proof (expr_grows g test ta Lt) as Hg.
+        destruct (sem_expr efuel g test) as [[j g1]|fl0| |] eqn:Es; cbn [sbind]; try exact I; try contradiction.
+        destruct (to_boolean g1 j) as [bb g2] eqn:Eb2.
+        pose proof (to_boolean_flags g1 j bb g2 Eb2) as Hg2.
+        (* what S continues with, and the branch the model must take *)
+        set (r2 := if bb then sem_nodes globals fs m blk g2 cons_
+                   else match alt with Some a' => sem_node globals fs m blk g2 a' | None => SOk (g2, m) end).
+        assert (G2 : grows g2 r2).
+        { unfold r2. destruct bb; [exact (Gns cons_ m blk g2 fl th Ec)|].
+          destruct alt as [a'|]; [|apply grows_refl].
+          destruct (lower funcs goodb fl a') as [el|] eqn:Ea; [|discriminate]. exact (Gn a' m blk g2 fl el Ea). }
+        assert (KEY : s_flags g2 = s_flags g ->
+                      exists v, eval_pipeline (env_of s dot) (x_heap s) (pipe1 ta) = Ok (v, x_heap s) /\
+                                truthy (x_heap s) v = Ok bb /\ g2 = g1 /\ R (after_test s (pipe1 ta) v (x_heap s)) g1).
+        { intros Hf. destruct Hg as [l1 E1]. destruct Hg2 as [l2 E2]. rewrite E2, E1 in Hf.
+          destruct (flags_split _ _ _ Hf) as [-> ->]. cbn [app] in E1, E2.
+          destruct (eval_here dot s g test ta j g1 Rr Lt Es E1) as [v [Ev [Hv [_ R1]]]].
+          destruct (vr_truthy (x_heap s) g1 v j Hv) as [T1 T2]. rewrite Eb2 in T1, T2. cbn [fst snd] in T1, T2.
+          exists v. split; [exact (Ev [])|split; [exact T1|split; [exact T2|]]].
+          apply R_after_test; [reflexivity|exact R1]. }
+        assert (Ht : exists el, t = [NIf (pipe1 ta) th el] /\
+                                match alt with Some a' => lower funcs goodb fl a' = Some el | None => el = [] end).
+        { destruct alt as [a'|].
+          - destruct (lower funcs goodb fl a') as [el|]; [|discriminate]. injection Hl as <-. exists el. split; reflexivity.
+          - injection Hl as <-. exists []. split; reflexivity. }
+        destruct Ht as [el [-> Hel]]. clear Hl.
+        apply sim_single. fold r2. unfold sim_res.
+        destruct r2 as [[g' m']|fle| |] eqn:Er2; try exact I.
+        * intros Hf. destruct G2 as [l3 E3]. destruct Hg as [l1 E1]. destruct Hg2 as [l2 E2].
+          assert (F2 : s_flags g2 = s_flags g /\ s_flags g' = s_flags g2).
+          { rewrite E3, E2, E1 in Hf. rewrite !app_assoc in Hf. change (s_flags g) with ([] ++ s_flags g) in Hf at 2.
+            apply app_inv_tail in Hf. apply app_eq_nil in Hf. destruct Hf as [Hf ->].
+            apply app_eq_nil in Hf. destruct Hf as [-> ->]. cbn [app] in *. split; congruence. }
+          destruct F2 as [F2 F3]. destruct (KEY F2) as [v [Ev [Tv [-> RA]]]].
+          unfold r2 in Er2. destruct bb.
+          -- pose proof (IHns cons_ m blk g1 fl th dot _ Ec RA) as SI. unfold sim_ok, sim_res in SI. rewrite Er2 in SI.
+             destruct (SI F3) as [-> [f [s' [X R']]]]. split; [reflexivity|]. exists (S f), s'. split; [|exact R'].
+             rewrite (if_step [] f dot s (pipe1 ta) th el v (x_heap s) true Ev Tv). exact X.
+          -- destruct alt as [a'|].
+             ++ pose proof (IHn a' m blk g1 fl el dot _ Hel RA) as SI. unfold sim_ok, sim_res in SI. rewrite Er2 in SI.
+                destruct (SI F3) as [-> [f [s' [X R']]]]. split; [reflexivity|]. exists (S f), s'. split; [|exact R'].
+                rewrite (if_step [] f dot s (pipe1 ta) th el v (x_heap s) false Ev Tv). exact X.
+             ++ subst el. injection Er2 as <- <-. split; [reflexivity|].
+                exists 2, (after_test s (pipe1 ta) v (x_heap s)). split; [|exact RA].
+                rewrite (if_step [] 1 dot s (pipe1 ta) th [] v (x_heap s) false Ev Tv). reflexivity.
+        * intros Hf. destruct G2 as [l3 E3]. destruct Hg as [l1 E1]. destruct Hg2 as [l2 E2].
+          assert (F2 : s_flags g2 = s_flags g /\ fle = s_flags g2).
+          { rewrite E3, E2, E1 in Hf. rewrite !app_assoc in Hf. change (s_flags g) with ([] ++ s_flags g) in Hf at 2.
+            apply app_inv_tail in Hf. apply app_eq_nil in Hf. destruct Hf as [Hf ->].
+            apply app_eq_nil in Hf. destruct Hf as [-> ->]. cbn [app] in *. split; congruence. }
+          destruct F2 as [F2 F3]. destruct (KEY F2) as [v [Ev [Tv [-> RA]]]].
+          unfold r2 in Er2. destruct bb.
+          -- pose proof (IHns cons_ m blk g1 fl th dot _ Ec RA) as SI. unfold sim_ok, sim_res in SI. rewrite Er2 in SI.
+             destruct (SI F3) as [f X]. exists (S f).
+             rewrite (if_step [] f dot s (pipe1 ta) th el v (x_heap s) true Ev Tv). exact X.
+          -- destruct alt as [a'|]; [|discriminate Er2].
+             pose proof (IHn a' m blk g1 fl el dot _ Hel RA) as SI. unfold sim_ok, sim_res in SI. rewrite Er2 in SI.
+             destruct (SI F3) as [f X]. exists (S f).
+             rewrite (if_step [] f dot s (pipe1 ta) th el v (x_heap s) false Ev Tv). exact X.
+      + (* while *)
+        unfold lw in Hl. cbn [lower] in Hl. fold lx in Hl.
+        destruct (lx test) as [ta|] eqn:Lt; [|discriminate].
+        destruct (lower_list (lower funcs goodb fl) body) as [tb|] eqn:Ebd; [|discriminate]. injection Hl as <-.
+        rewrite sem_while_eq. apply sim_single. destruct fs as [|fs']; [exact I|].
+        rewrite sem_while_step. pose proof (expr_grows g test ta Lt) as Hg.
+        destruct (sem_expr efuel g test) as [[j g1]|fl0| |] eqn:Es; cbn [sbind]; try exact I; try contradiction.
+        destruct j as [| |[|]| | | |]; try exact I.
+        * (* the loop is entered *)
+          pose proof (while_sim (S fs') blk test body ta tb fl IHns Gns Lt Ebd fs' while_limit g1 m) as WS.
+          pose proof (after_true_grows (S fs') blk test body ta tb fl Gns Lt Ebd while_limit fs' g1 m) as GA.
+          destruct (after_true (S fs') blk test body while_limit fs' g1 m) as [[g' m']|fle| |] eqn:EA; cbn [sim_res]; try exact I.
+          -- intros Hf. destruct GA as [l3 E3]. destruct Hg as [l1 E1]. rewrite E3, E1 in Hf.
+             destruct (flags_split _ _ _ Hf) as [-> ->]. cbn [app] in E1, E3.
+             destruct (range_plan_test dot s g test ta (JB true) g1 Rr Lt Es E1) as [v [Hv [R1 Ep]]].
+             assert (Tv : is_true v) by (destruct (vr_bool v true Hv) as [->| ->]; [left|right]; reflexivity).
+             specialize (WS (plan_state s v) v dot R1 Tv). cbn [sim_res] in WS.
+             destruct (WS E3) as [-> [fw [s' [Xw R']]]]. split; [reflexivity|]. exists (S fw), s'. split; [|exact R'].
+             rewrite node_range, Ep. rewrite cap_is_limit.
+             destruct Tv as [-> | ->]; exact Xw.
+          -- intros Hf. destruct GA as [l3 E3]. destruct Hg as [l1 E1]. rewrite E3, E1 in Hf.
+             destruct (flags_split _ _ _ Hf) as [-> ->]. cbn [app] in E1, E3.
+             destruct (range_plan_test dot s g test ta (JB true) g1 Rr Lt Es E1) as [v [Hv [R1 Ep]]].
+             assert (Tv : is_true v) by (destruct (vr_bool v true Hv) as [->| ->]; [left|right]; reflexivity).
+             specialize (WS (plan_state s v) v dot R1 Tv). cbn [sim_res] in WS.
+             destruct (WS E3) as [fw Xw]. exists (S fw).
+             rewrite node_range, Ep. rewrite cap_is_limit.
+             destruct Tv as [-> | ->]; exact Xw.
+        * (* false on entry *)
+          cbn [sim_res]. intros Hf. destruct (range_plan_test dot s g test ta (JB false) g1 Rr Lt Es Hf) as [v [Hv [R1 Ep]]].
+          split; [reflexivity|]. exists 1, (plan_state s v). split; [|exact R1].
+          rewrite node_range, Ep. destruct (vr_bool v false Hv) as [-> | ->]; reflexivity.
+      + (* block *)
+        rewrite sem_block. unfold lw in Hl. cbn [lower] in Hl. exact (IHns l m blk g fl t dot s Hl Rr).
+      + (* comment *)
+        unfold lw in Hl. cbn [lower] in Hl. injection Hl as <-. rewrite sem_comment. cbn [sim_ok sim_res]. intros _.
+        split; [reflexivity|]. exists 1, s. split; [reflexivity|exact Rr].
   Qed.
 End Sim.
